@@ -9,7 +9,8 @@ from . import oracle
 #   decl = (base:str, form, ranges[(lo,hi)], ty, K, stride, sep)
 
 def emit_field_decl(d, name="S"):
-    base, form, ranges, ty, K, stride, sep = d
+    order = d[7] if len(d) > 7 else 'ras'
+    base, form, ranges, ty, K, stride, sep = d[:7]
     if len(ranges) == 1:
         lo, hi = ranges[0]
         a = f"bit({lo}" if form == 'bit' else f"bits({lo}..={hi}"
@@ -18,12 +19,15 @@ def emit_field_decl(d, name="S"):
         for j, (lo, hi) in enumerate(ranges):
             parts.append(f"{lo}" if (lo == hi and j % 2 == 0) else f"{lo}..={hi}")
         a = "bits([" + ", ".join(parts) + "]"
-    a += ", rw"
-    if stride is not None:
-        a += f", stride {sep} {stride}" if sep == '=' else f", stride: {stride}"
-    a += ")"
+    head, rng = a.split("(", 1)
+    parts = {'r': rng, 'a': 'rw', 's': None if stride is None else (f"stride {sep} {stride}" if sep == '=' else f"stride: {stride}")}
+    a = head + "(" + ", ".join(parts[k] for k in order if parts[k]) + ")"
     t = ty if K is None else f"[{ty}; {K}]"
     return f"#[bitfield({base})] pub struct {name} {{ #[{a}] x: {t} }}"
+
+
+def decl_order_documented(d):
+    return (d[7] if len(d) > 7 else 'ras') == 'ras'
 
 
 def use_probe(d, name="S"):
@@ -34,7 +38,7 @@ def use_probe(d, name="S"):
 
 
 def decl_valid(d):
-    base, form, ranges, ty, K, stride, sep = d
+    base, form, ranges, ty, K, stride, sep = d[:7]
     if not oracle.base_valid(base):
         return False
     n = int(base[1:])
@@ -70,6 +74,10 @@ def c09_small_product(n):
                         for st in strides:
                             sep = ':' if (st is not None and (lo + hi + st) % 3 == 0) else '='
                             out.append((base, form, [(lo, hi)], ty, K, st, sep))
+                            # the same array declaration with the attribute arguments in another order (not the documented one:
+                            # only "invalid => rejected" is demanded of these)
+                            if st is not None and K is not None and K >= 2:
+                                out.append((base, form, [(lo, hi)], ty, K, st, sep, ('sra', 'ars', 'rsa')[(lo + hi + K) % 3]))
     # two-range lists over a boundary set (pairwise disjoint only: lists naming a bit twice are undetermined)
     pts = sorted({0, 1, n // 2, n - 2, n - 1, n})
     rs = [(a, b) for a in pts for b in pts if a <= b]
@@ -149,7 +157,7 @@ def c09_declarations(tier):
     # dedupe, keep order
     seen, out = set(), []
     for d in decls:
-        k = (d[0], d[1], tuple(d[2]), d[3], d[4], d[5], d[6])
+        k = (d[0], d[1], tuple(d[2]), d[3], d[4], d[5], d[6], d[7] if len(d) > 7 else 'ras')
         if k not in seen:
             seen.add(k)
             out.append(d)
